@@ -218,11 +218,40 @@ def rename_map(code0, code1, sm=None):
         if len(ranked) > 1 and ranked[0][1] == ranked[1][1]:
             continue
         y = ranked[0][0]
-        if x not in sb and y not in sa:
+        if y in sa:
+            continue
+        if x not in sb or _unshadowed(b, x, y):
             ren[x] = y
     if len(set(ren.values())) != len(ren):
         return {}
     return ren
+
+
+def _unshadowed(b, x, y):
+    """The source gave a SHADOWING re-binding `let x = .. x ..;` a fresh name y (`let y = .. x ..;`): x may still occur in the
+    source, but only before the end of the `let y` statement (its initialiser may mention the earlier x), and y only from that
+    statement on.  Renaming y back to x then restores exactly the shadowing the contract was written against."""
+    ys = [i for i, t in enumerate(b) if t == y]
+    xs = [i for i, t in enumerate(b) if t == x]
+    if not ys or not xs:
+        return False
+    i = ys[0]
+    if i == 0 or b[i - 1] not in ("let", "mut"):
+        return False
+    depth = 0
+    j = i
+    while j < len(b):
+        t = b[j]
+        if t in ("(", "[", "{"):
+            depth += 1
+        elif t in (")", "]", "}"):
+            if depth == 0:
+                return False
+            depth -= 1
+        elif t == ";" and depth == 0:
+            break
+        j += 1
+    return j < len(b) and max(xs) < j
 
 
 def apply_renaming(toks, ren):
